@@ -609,6 +609,23 @@ def r10_kinds(repo):
     return kernel.kind_table(repo, "C06-R10")
 
 
+JUDGING = ["src.ir.types.Builtin", "src.ir.types.SimpleClassifier", "src.ir.types.TypeParameter",
+           "src.ir.types.WildCardType", "src.ir.types.TypeConstructor", "src.ir.types.ParameterizedType"]
+
+
+def r11_process_state(repo):
+    """the judgement is a function of the two types: nothing it computes may survive in a class body or a mutable default
+    (a memo keyed by a built-in conflates a primitive with its box - they are equal objects with different supertypes)"""
+    from ..irwrites import closure_effects
+    from .. import kernel
+    obs = []
+    for q in JUDGING:
+        cls = repo.cls(q)
+        E, fns, _effs = closure_effects(repo, cls)
+        obs += kernel.process_state(repo, "C06-R11", cls.name, E, fns)
+    return obs
+
+
 def rules():
     return [
         RuleSpec("C06-R1", "containment direction per governing variance (every return)", 10, r1_containment),
@@ -621,6 +638,7 @@ def rules():
         RuleSpec("C06-R8", "type constructors store their arguments as given", 10, r8_constructors),
         RuleSpec("C06-R9", "the three variance objects answer their own predicates (and print their keyword)", 4, r9_variance),
         RuleSpec("C06-R10", "each class of the type representation answers exactly its own kind predicate", 28, r10_kinds),
+        RuleSpec("C06-R11", "the judgement keeps no state between queries (class bodies, mutable defaults)", 12, r11_process_state),
     ]
 
 
